@@ -254,9 +254,26 @@ def run_stream_convert(req):
                 except exc.ValueError:
                     if seq:
                         bad.append("%s-parse-rejects-only-non-sequential-labels" % k)
+            if req.get("ids2") or req.get("generic"):
+                ids2 = [int(v) for v in (req.get("ids2") or [i + 100 for i in range(n)])]
+                f2 = [[float(np.float32(v)) for v in r] for r in (req.get("feats2") or [[v + 7.0 for v in r] for r in feats32])]
+                with open(path, "wb") as fh:
+                    fh.write(struct.pack("<iii", n, K, f))
+                    for i in range(n):
+                        fh.write(struct.pack("<ii" + "f" * f, ids2[i], labs[i], *f2[i]))
+                conv.opf2txt("data.dat")
+                conv.opf2csv("data.dat", "other.csv")
+                conv.opf2json("data.dat")
+                again = dict(txt=loader.load_txt("data.txt"), csv=loader.load_csv("other.csv"), json=loader.load_json("data.json"))
+                for k, arr in again.items():
+                    if arr is None or arr.shape != (n, f + 2) or [int(v) for v in arr[:, 0]] != ids2 or \
+                            [[float(v) for v in r[2:]] for r in arr] != f2:
+                        bad.append("%s-reload-sees-the-new-file" % k)
             for k, pth in (("txt", "data.txt"), ("csv", "other.csv"), ("json", "data.json")):
                 try:
-                    g = Subgraph(from_file=pth)
+                    g = Subgraph(from_file=pth) if not (req.get("ids2") or req.get("generic")) else None
+                    if g is None:
+                        continue
                     if seq and ([int(nd.label) for nd in g.nodes] != lab0 or
                                 [[float(v) for v in nd.features] for nd in g.nodes] != feats32):
                         bad.append("%s-from-file-builds-the-graph" % k)
@@ -320,7 +337,8 @@ def run_persist(req):
     def state(o):
         g = o.subgraph
         s = dict(nodes=[[float(nd.cost), int(nd.pred), int(nd.predicted_label), int(nd.status), int(nd.cluster_label),
-                         int(nd.root), float(nd.density), int(nd.label), int(nd.idx)] for nd in g.nodes],
+                         int(nd.root), float(nd.density), int(nd.label), int(nd.idx), float(nd.radius), int(nd.n_plateaus),
+                         [int(a) for a in nd.adjacency], [float(v) for v in nd.features]] for nd in g.nodes],
                  order=[int(x) for x in g.idx_nodes], trained=g.trained, distance=o.distance,
                  fn_is_registry=o.distance_fn is d.DISTANCES[o.distance], pre=o.pre_computed_distance)
         for a in ("best_k", "constant", "min_density", "max_density", "n_clusters", "density"):
